@@ -61,7 +61,7 @@ struct Verdict
         if (!(cond))                                                                                               \
         {                                                                                                          \
             std::ostringstream vf_os_;                                                                             \
-            vf_os_ << msg << "  [" #cond "] @" << __FILE__ << ":" << __LINE__;                                  \
+            vf_os_ << msg << std::dec << "  [" #cond "] @" << __FILE__ << ":" << __LINE__;                                  \
             return ::vf::Verdict::fail(vf_os_.str());                                                              \
         }                                                                                                          \
     } while (0)
@@ -529,6 +529,9 @@ struct Options
     std::string failDir{"."};
     std::vector<std::string> files;
     uint64_t maxEnum{0};  // 0 = unlimited
+    std::string dumpDir;     // write every dumpEvery-th generated case to this directory (at most dumpMax)
+    uint64_t dumpEvery{1};
+    uint64_t dumpMax{0};
     uint64_t enumShard{0};   // enumeration sharding: this process handles cases with index % enumShards == enumShard
     uint64_t enumShards{1};
 };
@@ -556,6 +559,12 @@ inline Options parseOptions(int argc, char** argv)
             o.failDir = val();
         else if (a == "--max-enum")
             o.maxEnum = std::stoull(val());
+        else if (a == "--dump-dir")
+            o.dumpDir = val();
+        else if (a == "--dump-every")
+            o.dumpEvery = std::max<uint64_t>(1, std::stoull(val()));
+        else if (a == "--dump-max")
+            o.dumpMax = std::stoull(val());
         else if (a == "--enum-shard")
         {
             std::string v = val();
@@ -718,6 +727,7 @@ int pbtMain(int argc, char** argv, const Property<Case>& prop)
     // mode "run": rapidcheck loop
     std::string lastFailSerialized, lastFailWhy;
     bool haveFail = false;
+    uint64_t dumped = 0;
     auto gen = prop.gen(opt.tier);
     bool ok = rc::check(prop.id, [&]() {
         Case c = *gen;
@@ -732,7 +742,16 @@ int pbtMain(int argc, char** argv, const Property<Case>& prop)
             RC_FAIL(v.why);
         }
         if (!haveFail)
+        {
             stats.record(currentCaseText(), info);
+            if (!opt.dumpDir.empty() && dumped < opt.dumpMax && stats.evaluations % opt.dumpEvery == 0 && info.nontrivial)
+            {
+                char name[64];
+                snprintf(name, sizeof(name), "/dump-%06" PRIu64 ".case", dumped++);
+                std::ofstream f(opt.dumpDir + name);
+                f << currentCaseText();
+            }
+        }
     });
     std::string failPath;
     if (!ok && haveFail)
